@@ -17,13 +17,13 @@ Log == ndJsonDeserialize(IOEnv.VERIF_TRACE)
 VARIABLES l, ok, cfg, w
 vars == <<l, ok, cfg, w>>
 
-Init == l = 1 /\ ok = FALSE /\ cfg = [wsize |-> 0] /\ w = Empty
+Init == l = 1 /\ ok = FALSE /\ cfg = [wsize |-> 0, general |-> FALSE] /\ w = Empty
 Step ==
   /\ l <= Len(Log) /\ l' = l + 1
   /\ LET e == Log[l] IN
-     IF e.ev = "Reset" THEN cfg' = e.cfg /\ w' = Empty /\ ok' = TRUE
+     IF e.ev = "Reset" THEN cfg' = e.cfg /\ w' = (IF e.cfg.general THEN Empty2 ELSE Empty) /\ ok' = TRUE
      ELSE IF ~ok THEN UNCHANGED <<ok, cfg, w>>
-     ELSE LET r == Fold(cfg, w, e.in) IN
+     ELSE LET r == IF cfg.general THEN Fold2(cfg, w, e.in) ELSE Fold(cfg, w, e.in) IN
           IF r.out = e.out /\ e.est = e.dest
           THEN w' = r.st /\ UNCHANGED <<ok, cfg>>
           ELSE /\ ok' = FALSE /\ UNCHANGED <<cfg, w>>
